@@ -520,7 +520,7 @@ class DynamicBayesianNetwork(DAG):
                 "Time slice is not a positive integer neither a iterable of integers"
             )
 
-        if node:
+        if node is not None:
             if node not in super(DynamicBayesianNetwork, self).nodes():
                 raise ValueError("Node not present in the model.")
             else:
